@@ -158,7 +158,7 @@ pub fn run(ctx: &mut Ctx) {
     let (mut is, names) = new_iset();
     let cache = sorted_cache(&is);
     let judge = Judge { frame: true, reference: true };
-    let ncase = ctx.n(15000, 500000);
+    let ncase = ctx.n(15000, 2000000);
     for case in 0..ncase as u64 {
         if !ctx.mine(case) {
             continue;
